@@ -26,6 +26,7 @@ pub enum Ty {
     N,
     NS,
     A,
+    AS,
     DI,
     RI,
     V,
@@ -44,6 +45,7 @@ impl Ty {
             Ty::N => "TN",
             Ty::NS => "TNS",
             Ty::A => "TA",
+            Ty::AS => "TAS",
             Ty::DI => "TDI",
             Ty::RI => "TRI",
             Ty::V => "TV",
@@ -61,6 +63,7 @@ impl Ty {
             Ty::N => "N",
             Ty::NS => "NS",
             Ty::A => "A",
+            Ty::AS => "AS",
             Ty::DI => "DI",
             Ty::RI => "RI",
             Ty::V => "V",
@@ -126,6 +129,7 @@ macro_rules! with_compound {
             Ty::N => { type $T = TNode; $body }
             Ty::NS => { type $T = TNodeS; $body }
             Ty::A => { type $T = Arc<TInt>; $body }
+            Ty::AS => { type $T = Arc<TIntS>; $body }
             Ty::DI => { type $T = Directory<TInt>; $body }
             Ty::RI => { type $T = RecursiveDirectory<TInt>; $body }
             Ty::V => $else,
@@ -146,6 +150,7 @@ macro_rules! with_storable {
             Ty::N => { type $T = TNode; $body }
             Ty::NS => { type $T = TNodeS; $body }
             Ty::A => { type $T = Arc<TInt>; $body }
+            Ty::AS => { type $T = Arc<TIntS>; $body }
             Ty::DI => { type $T = Directory<TInt>; $body }
             Ty::RI => { type $T = RecursiveDirectory<TInt>; $body }
             Ty::V => { type $T = SVal; $body }
@@ -330,6 +335,7 @@ pub enum Line {
     ReadDir(String),
     Insert(String, i64),
     Thread(Box<Line>),
+    Catch(Box<Line>),
     Fail,
     Panic,
 }
@@ -355,6 +361,7 @@ impl Line {
             Line::ReadDir(id) => format!("readdir {}", q(id)),
             Line::Insert(id, k) => format!("insert {} {}", q(id), k),
             Line::Thread(l) => format!("thread {}", l.text()),
+            Line::Catch(l) => format!("catch {}", l.text()),
             Line::Fail => "fail".into(),
             Line::Panic => "panic".into(),
         }
@@ -371,6 +378,7 @@ impl Line {
             Line::ReadDir(id) => format!("(LReadDir {})", cstr(id)),
             Line::Insert(id, k) => format!("(LInsert {} {})", cstr(id), zlit(*k)),
             Line::Thread(l) => format!("(LThread {})", l.coq()),
+            Line::Catch(l) => format!("(LCatch {})", l.coq()),
             Line::Fail => "LFail".into(),
             Line::Panic => "LPanic".into(),
         }
@@ -558,6 +566,10 @@ impl Identity {
 
 #[derive(Default)]
 pub struct Ctx {
+    /// C13 ledger: tokens not dropped exactly once by the time the cache is gone
+    pub ledger_violations: Vec<String>,
+    /// C02: a key of one type answered a query for another type
+    pub key_violations: Vec<String>,
     pub ident: Identity,
     pub watchers: HashMap<u64, assets_manager::ReloadWatcher<'static>>,
     /// the Coq text of the pass order observed during the last op that takes one
@@ -577,6 +589,7 @@ fn type_table() -> Vec<(std::any::TypeId, Ty)> {
         (TypeId::of::<TNode>(), Ty::N),
         (TypeId::of::<TNodeS>(), Ty::NS),
         (TypeId::of::<Arc<TInt>>(), Ty::A),
+        (TypeId::of::<Arc<TIntS>>(), Ty::AS),
         (TypeId::of::<Directory<TInt>>(), Ty::DI),
         (TypeId::of::<RecursiveDirectory<TInt>>(), Ty::RI),
         (TypeId::of::<SVal>(), Ty::V),
@@ -799,7 +812,7 @@ fn gen_int_content(rng: &mut Rng) -> Vec<u8> {
 fn gen_ty(rng: &mut Rng) -> Ty {
     *rng.pick(&[
         Ty::I, Ty::I, Ty::I, Ty::S, Ty::M, Ty::M, Ty::X, Ty::E, Ty::D, Ty::D, Ty::B, Ty::N, Ty::N, Ty::N,
-        Ty::NS, Ty::A, Ty::DI, Ty::DI, Ty::RI, Ty::RI,
+        Ty::NS, Ty::A, Ty::AS, Ty::DI, Ty::DI, Ty::RI, Ty::RI,
     ])
 }
 
@@ -825,7 +838,7 @@ fn id_for(rng: &mut Rng, t: Ty) -> String {
 
 fn exts_of(t: Ty) -> &'static [&'static str] {
     match t {
-        Ty::I | Ty::S | Ty::A => &["x"],
+        Ty::I | Ty::S | Ty::A | Ty::AS => &["x"],
         Ty::M => &["p", "q", "r"],
         Ty::E => &[""],
         Ty::D => &["d", "e"],
@@ -836,7 +849,7 @@ fn exts_of(t: Ty) -> &'static [&'static str] {
 }
 
 fn gen_line(rng: &mut Rng, node_idx: usize, depth: u32, threads_ok: bool, spicy: bool) -> Line {
-    let r = rng.below(if spicy { 32 } else { 29 });
+    let r = rng.below(if spicy { 34 } else { 29 });
     match r {
         0..=3 => Line::Val(rng.below(20) as i64),
         4..=10 => {
@@ -874,6 +887,7 @@ fn gen_line(rng: &mut Rng, node_idx: usize, depth: u32, threads_ok: bool, spicy:
         28 if threads_ok && depth < 2 => Line::Thread(Box::new(gen_line(rng, node_idx, depth + 1, false, spicy))),
         29..=30 => Line::Fail,
         31 => Line::Panic,
+        32..=33 if depth < 2 => Line::Catch(Box::new(gen_line(rng, node_idx, depth + 1, threads_ok, true))),
         _ => Line::Val(1),
     }
 }
@@ -1231,6 +1245,7 @@ pub fn run_case(kind: FeKind, ops: &[Op], ctx: &mut Ctx) -> Vec<(String, String)
     ctx.watchers.clear();
     reset_tokens();
     let _ = take_trace();
+    let _ = take_ledger();
     let mem = Mem::new(kind.hot());
     let res = match kind {
         FeKind::CacheNoHot => {
@@ -1268,7 +1283,67 @@ pub fn run_case(kind: FeKind, ops: &[Op], ctx: &mut Ctx) -> Vec<(String, String)
         }
     };
     let _ = take_trace();
+    // C13: once the cache is gone every value ever made has been dropped exactly once
+    if kind != FeKind::HotLeaked {
+        if kind.hot() {
+            // the reloader thread owns nothing, but let it finish draining
+            std::thread::sleep(std::time::Duration::from_millis(2));
+        }
+        let made = peek_next_tok() - 1;
+        let mut count = vec![0u32; made as usize + 1];
+        for t in take_ledger() {
+            if (t as usize) < count.len() {
+                count[t as usize] += 1;
+            }
+        }
+        let bad: Vec<String> = (1..=made as usize)
+            .filter(|t| count[*t] != 1)
+            .map(|t| format!("token {} dropped {} times", t, count[t]))
+            .collect();
+        if !bad.is_empty() && ctx.ledger_violations.len() < 5 {
+            ctx.ledger_violations.push(format!(
+                "{:?}: {} (ops: {})",
+                kind,
+                bad.join(", "),
+                ops.iter().map(|o| o.coq()).collect::<Vec<_>>().join("; ")
+            ));
+        }
+    }
     res
+}
+
+/// C02: two types under one id are two keys, for every hash seed (each trial = a fresh cache).
+fn key_sweep(trials: u64, ctx: &mut Ctx) {
+    trace_enable(false);
+    for i in 0..trials {
+        let id = format!("k{i}");
+        let mut c = LocalAssetCache::with_source(Mem::new(false));
+        c.get_or_insert::<SVal>(&id, SVal(V::new(1, "k")));
+        let r = catch_unwind(AssertUnwindSafe(|| {
+            let mut bad = vec![];
+            if c.contains::<TInt>(&id) {
+                bad.push("contains::<TInt> is true");
+            }
+            if c.get_cached::<TIntS>(&id).is_some() {
+                bad.push("get_cached::<TIntS> found an entry");
+            }
+            bad
+        }));
+        let mut bad: Vec<String> = match r {
+            Ok(b) => b.into_iter().map(|x| x.to_string()).collect(),
+            Err(_) => vec!["a look-up under another type panicked".to_string()],
+        };
+        if c.remove::<TInt>(&id) {
+            bad.push("remove::<TInt> returned true".into());
+        }
+        if !c.contains::<SVal>(&id) {
+            bad.push("the SVal entry is gone".into());
+        }
+        if !bad.is_empty() && ctx.key_violations.len() < 5 {
+            ctx.key_violations.push(format!("LocalAssetCache, only (SVal, {id:?}) stored: {}", bad.join("; ")));
+        }
+    }
+    trace_enable(true);
 }
 
 pub fn run(a: &Args) {
@@ -1278,7 +1353,7 @@ pub fn run(a: &Args) {
     let n_cases = a
         .get("cases")
         .and_then(|s| s.parse().ok())
-        .unwrap_or(if a.thorough() { 4000 } else { 240 });
+        .unwrap_or(if a.thorough() { 6000 } else { 800 });
     let mode = a.get("mode").unwrap_or("all").to_string();
     let shards = if a.thorough() { 16 } else { 4 };
     let mut all: Vec<Cases> = (0..shards).map(|_| Cases::new()).collect();
@@ -1287,12 +1362,36 @@ pub fn run(a: &Args) {
         .map(|c| c.group("sys_cases", "bool * list op * list (out * list ev)"))
         .collect();
     let mut ctx = Ctx::default();
+    key_sweep(if a.thorough() { 40000 } else { 4000 }, &mut ctx);
     let mut op_hist: std::collections::BTreeMap<String, u64> = Default::default();
     let mut fe_hist: std::collections::BTreeMap<String, u64> = Default::default();
     let mut len_hist: std::collections::BTreeMap<usize, u64> = Default::default();
     let mut out_hist: std::collections::BTreeMap<String, u64> = Default::default();
     let mut passes_nonempty = 0u64;
-    for i in 0..n_cases {
+    // corpus first: the rewire+edit batch of known finding D8, a few times (the order of the pass
+    // depends on the hash seeds)
+    let mut corpus: Vec<(FeKind, Vec<Op>)> = vec![];
+    if mode != "cold" {
+        for _ in 0..6 {
+            corpus.push((
+                FeKind::Hot,
+                vec![
+                    Op::Write("n1".into(), "n".into(), Content::Script(vec![Line::Val(10)])),
+                    Op::Write("n2".into(), "n".into(), Content::Script(vec![Line::Val(1)])),
+                    Op::Load(Ty::N, "n1".into()),
+                    Op::Load(Ty::N, "n2".into()),
+                    Op::Write("n1".into(), "n".into(), Content::Script(vec![Line::Val(10), Line::Load(Ty::N, "n2".into())])),
+                    Op::Write("n2".into(), "n".into(), Content::Script(vec![Line::Val(2)])),
+                    Op::Notify(vec![(true, "n1".into(), "n".into()), (true, "n2".into(), "n".into())]),
+                    Op::HotReload,
+                    Op::GetCached(Ty::N, "n1".into()),
+                    Op::GetCached(Ty::N, "n2".into()),
+                ],
+            ));
+        }
+    }
+    let n_corpus = corpus.len();
+    for i in 0..(n_cases + n_corpus) {
         let kinds: &[FeKind] = match mode.as_str() {
             "cold" => &[FeKind::CacheNoHot, FeKind::CacheNoHotAny, FeKind::Local, FeKind::LocalAny],
             "hot" => &[FeKind::Hot, FeKind::HotAny, FeKind::HotLeaked, FeKind::HotLeaked],
@@ -1317,7 +1416,7 @@ pub fn run(a: &Args) {
         };
         let maxlen = if rng.chance(1, 5) { 60 } else { 25 };
         let len = 1 + rng.below(maxlen) as usize;
-        let ops = gen_ops(&mut rng, len, cfg);
+        let (kind, ops) = if i < n_corpus { corpus[i].clone() } else { (kind, gen_ops(&mut rng, len, cfg)) };
         let res = run_case(kind, &ops, &mut ctx);
         *fe_hist.entry(format!("{kind:?}")).or_insert(0) += 1;
         *len_hist.entry(ops.len() / 10 * 10).or_insert(0) += 1;
@@ -1365,15 +1464,23 @@ pub fn run(a: &Args) {
             &[("sys_cases", "sys_code")],
         );
     }
-    if !ctx.ident.violations.is_empty() {
+    {
         let mut f = String::new();
-        for v in ctx.ident.violations.iter().take(5) {
-            f.push_str(&format!(
-                "{{\"engine\": \"sysdiff\", \"kind\": \"monitor\", \"class\": \"handle-changed\", \"case\": {{\"observed\": {}}}}}\n",
-                jstr(v)
-            ));
+        for (class, list) in [
+            ("handle-changed", &ctx.ident.violations),
+            ("value-not-dropped-exactly-once", &ctx.ledger_violations),
+            ("key-type-confusion", &ctx.key_violations),
+        ] {
+            for v in list.iter().take(5) {
+                f.push_str(&format!(
+                    "{{\"engine\": \"sysdiff\", \"kind\": \"monitor\", \"class\": \"{class}\", \"case\": {{\"observed\": {}}}}}\n",
+                    jstr(v)
+                ));
+            }
         }
-        std::fs::write(format!("{}/sysdiff.violations.jsonl", a.out), f).unwrap();
+        if !f.is_empty() {
+            std::fs::write(format!("{}/sysdiff.violations.jsonl", a.out), f).unwrap();
+        }
     }
     let distinct: usize = all.iter().map(|c| c.distinct_nontrivial()).sum();
     let samples: Vec<String> = all.iter().flat_map(|c| c.samples.iter().take(1).cloned()).take(3).collect();
